@@ -134,6 +134,45 @@ Fixpoint add_channels (t : tables) (ops : list (Z * Z * Z)) : tables * list bool
     end
   end.
 
+(* func (b *band) DisableUplinkChannelIndex / EnableUplinkChannelIndex  band.go:402-416:
+   `if channel < 0 || channel > len(b.uplinkChannels)-1 { error }`, else the enabled flag of that
+   uplink channel is written (the downlink channels are not touched) *)
+Fixpoint map_nth_ch (g : channel -> channel) (l : list channel) (i : nat) : list channel :=
+  match l, i with
+  | [], _ => []
+  | h :: tl, O => g h :: tl
+  | h :: tl, S i' => h :: map_nth_ch g tl i'
+  end.
+Definition set_ch_enabled (v : bool) (c : channel) : channel :=
+  mkCh (ch_freq c) (ch_min c) (ch_max c) v (ch_custom c).
+Definition set_enabled_index (v : bool) (t : tables) (i : Z) : outcome tables :=
+  if (i <? 0) || (i >? zlen (t_up t) - 1) then Err
+  else Ok (set_channels t (map_nth_ch (set_ch_enabled v) (t_up t) (Z.to_nat i)) (t_down t)).
+
+(* a history of channel-plan calls on one band object *)
+Inductive chan_op :=
+| OpAdd (f mn mx : Z)      (* AddChannel(f, mn, mx) *)
+| OpDisable (i : Z)        (* DisableUplinkChannelIndex(i) *)
+| OpEnable (i : Z).        (* EnableUplinkChannelIndex(i) *)
+
+Definition apply_op (t : tables) (o : chan_op) : outcome tables :=
+  match o with
+  | OpAdd f mn mx => add_channel t f mn mx
+  | OpDisable i => set_enabled_index false t i
+  | OpEnable i => set_enabled_index true t i
+  end.
+
+(* resulting tables and, per call, whether it returned an error (then nothing changed) *)
+Fixpoint apply_ops (t : tables) (ops : list chan_op) : tables * list bool :=
+  match ops with
+  | [] => (t, [])
+  | o :: ops' =>
+    match apply_op t o with
+    | Ok t' => let r := apply_ops t' ops' in (fst r, false :: snd r)
+    | _ => let r := apply_ops t ops' in (fst r, true :: snd r)
+    end
+  end.
+
 (* the same band object with other tables (a band after a history of calls) *)
 Definition with_tables (c : band_cfg) (t : tables) : band_cfg :=
   mkCfg (c_name c) (c_rep c) (c_dwell c) (c_kind c) (c_dwell400 c) (c_freq_off c) (c_bname c)
